@@ -117,7 +117,7 @@ func GenInput(rt *rapid.T, xmpPacket func(*rapid.T) []byte) Input {
 		d := JPEGStream(segs, JPEGTail(rt))
 		return Input{Kind: "jpeg", Data: d, Sites: DiscoverSites(d), Exif: f}
 	}
-	f := GenExif(rt, Options{Unbuffered: true, MaxForeign: 4})
+	f := GenExif(rt, Options{Unbuffered: true, MaxForeign: 4, Arrays: true})
 	payload := f.Enc.II
 	if rapid.Bool().Draw(rt, "in.mm") {
 		payload = f.Enc.MM
